@@ -58,7 +58,7 @@ def units(tier, seed):
            [0, 0.2, 0.7, 0.1], [0] + [0.1] * 10, [0.1] * 10 + [0], [0, 0.7, 0.2, 0.1]]
     for v in big:
         us.append({"kind": "weighted", "weights": v, "full": tier != "quick" and sum(v) <= 2})
-    for src in ("ge", "stack", "sge", "dsge"):
+    for src in ("ge", "stack", "sge", "dsge", "sge-uneven"):
         for L in (1, 2, 3):
             us.append({"kind": "wrapper", "src": src, "L": L})
     us.append({"kind": "native", "seeds": 32 if tier == "quick" else 256, "seed": seed})
@@ -417,6 +417,8 @@ def _wrapper(kind, dna):
         return ListWrapper(dna)
     from geneticengine.representations.grammatical_evolution.structured_ge import INFRASTRUCTURE_KEY, StructuredListWrapper
 
+    if kind == "sge-uneven":  # per-symbol gene lists of different lengths, a longer one first
+        return StructuredListWrapper({"first": [5, 6, 7, 8, 9, 10, 11], INFRASTRUCTURE_KEY: dna, "other": [5]})
     return StructuredListWrapper({INFRASTRUCTURE_KEY: dna, "other": [5]})
 
 
